@@ -145,5 +145,49 @@ func genC19(e *emitter, tier string, seed uint64) map[string]interface{} {
 			e.fail(idx, "ids_distinct_concurrent", bad)
 		}
 	}
+	// the same with an option slice that the goroutines SHARE (read-only for them) and that has spare capacity: a constructor that appends its
+	// own option to the caller's slice writes into that shared spare element, and a call can pick up another call's id
+	for _, gm := range [][2]int{{4, 2000}, {16, 2000}} {
+		G, M := gm[0], gm[1]
+		ctx := protocol.NewContext(context.Background(), protocol.ClientSide)
+		common := make([]protocol.PacketOption, 0, 4)
+		common = append(common, protocol.WithRequestId(7))
+		ids := make([][]uint32, G)
+		var wg sync.WaitGroup
+		for g := 0; g < G; g++ {
+			wg.Add(1)
+			go func(g int) {
+				defer wg.Done()
+				for i := 0; i < M; i++ {
+					var pk protocol.Packet
+					if (i+g)%2 == 0 {
+						pk, _ = protocol.NewRequest(ctx, 1, []byte{}, common...)
+					} else {
+						pk = protocol.MustNewRequest(ctx, 1, []byte{}, common...)
+					}
+					ids[g] = append(ids[g], pk.Metadata.RequestId)
+				}
+			}(g)
+		}
+		wg.Wait()
+		all := []int{}
+		for g := range ids {
+			for _, id := range ids[g] {
+				all = append(all, int(id))
+			}
+		}
+		sort.Ints(all)
+		bad := ""
+		for i, id := range all {
+			if id != i+1 {
+				bad = fmt.Sprintf("%d goroutines x %d request constructors given one shared option slice (len 1, cap 4): the multiset of ids is not 1..%d (position %d holds %d)", G, M, G*M, i, id)
+				break
+			}
+		}
+		idx := e.op(fmt.Sprintf("ids.note shared-options goroutines=%d calls=%d", G, M), "ok", "concurrent-shared-options", true)
+		if bad != "" {
+			e.fail(idx, "ids_distinct_concurrent", bad)
+		}
+	}
 	return map[string]interface{}{}
 }
